@@ -16,6 +16,7 @@ import (
 	"net"
 	"os"
 	"runtime"
+	"strconv"
 	"strings"
 	"sync"
 	"sync/atomic"
@@ -69,9 +70,13 @@ func exporterGoroutines() int {
 	return c
 }
 
-// manyTemplates makes the refresh burst long (400 templates before the first tick); the peer signals the first
+// manyTemplates makes the refresh burst long (nMany templates before the first tick); the peer signals the first
 // retransmitted template it sees, the application then sends three new templates inside that burst and none afterwards.
 var manyTemplates bool
+
+// nMany: templates registered before the first tick in the many-templates run (the refresh burst must last a few
+// milliseconds: the exporter needs about 1.5 us per template)
+const nMany = 1500
 
 func udpRun(w *vt.Writer, r *rand.Rand, pool []*entities.InfoElement, dur time.Duration, dist map[uint64]bool) int {
 	peer, err := net.ListenUDP("udp", &net.UDPAddr{IP: net.IPv4(127, 0, 0, 1)})
@@ -88,13 +93,28 @@ func udpRun(w *vt.Writer, r *rand.Rand, pool []*entities.InfoElement, dur time.D
 	marker := []byte("VERIF-MARK")
 	peerDone := make(chan struct{})
 	burst := make(chan struct{}) // closed by the peer when it sees the first retransmitted template
-	go func() {                  // peer: log every datagram
-		defer close(peerDone)
+	// peer: one goroutine only reads (and notices the first retransmitted template at once), another one logs in
+	// arrival order - logging is slow, and what the reader notices must not wait for it
+	type pkt struct {
+		b   []byte
+		sec int
+	}
+	pkts := make(chan pkt, 1<<17)
+	var holdLog atomic.Bool
+	type lateRes struct {
+		m0, m1, n int
+		err       error
+	}
+	lateReq := make(chan []entities.Set, 1)
+	lateDone := make(chan []lateRes, 1)
+	go func() {
+		defer close(pkts)
 		buf := make([]byte, 65536)
 		seen := map[int]bool{}
 		burstSeen := false
+		deadline := time.Now().Add(dur + 5*time.Second)
 		for {
-			peer.SetReadDeadline(time.Now().Add(dur + 5*time.Second))
+			peer.SetReadDeadline(deadline)
 			n, _, err := peer.ReadFromUDP(buf)
 			if err != nil {
 				return
@@ -104,22 +124,38 @@ func udpRun(w *vt.Writer, r *rand.Rand, pool []*entities.InfoElement, dur time.D
 				if seen[tid] {
 					burstSeen = true
 					close(burst)
+					select {
+					case sets3 := <-lateReq:
+						holdLog.Store(true)
+						out := make([]lateRes, len(sets3))
+						for i := range sets3 {
+							out[i].m0 = ms()
+							out[i].n, out[i].err = ep.SendSet(sets3[i])
+							out[i].m1 = ms()
+						}
+						lateDone <- out
+					default: // the application was not ready (not the many-templates run)
+					}
 				}
 				seen[tid] = true
 			}
+			pkts <- pkt{append([]byte{}, buf[:n]...), int(time.Now().Unix())}
 			if string(buf[:n]) == string(marker) {
-				w.Emit(vt.Ev{"e": "Mark"})
-				// silence window: anything that still arrives is logged (and has no explanation)
-				for {
-					peer.SetReadDeadline(time.Now().Add(300 * time.Millisecond))
-					n, _, err := peer.ReadFromUDP(buf)
-					if err != nil {
-						return
-					}
-					w.Emit(vt.Ev{"e": "Recv", "bytes": vt.B(buf[:n]), "sec": int(time.Now().Unix())})
-				}
+				deadline = time.Now().Add(300 * time.Millisecond) // silence window: anything that still arrives is logged (and has no explanation)
 			}
-			w.Emit(vt.Ev{"e": "Recv", "bytes": vt.B(buf[:n]), "sec": int(time.Now().Unix())})
+		}
+	}()
+	go func() {
+		defer close(peerDone)
+		for p := range pkts {
+			for holdLog.Load() { // the application is logging sends it has just made: their datagrams come after that
+				time.Sleep(20 * time.Microsecond)
+			}
+			if string(p.b) == string(marker) {
+				w.Emit(vt.Ev{"e": "Mark"})
+				continue
+			}
+			w.Emit(vt.Ev{"e": "Recv", "bytes": vt.B(p.b), "sec": p.sec})
 		}
 	}()
 	evals := 0
@@ -135,18 +171,44 @@ func udpRun(w *vt.Writer, r *rand.Rand, pool []*entities.InfoElement, dur time.D
 		late := -1 // manyTemplates: number of new templates still to send inside the first refresh burst
 		lastNew := time.Now()
 		var burstAt time.Time
+		var lateSets []sets.Desc
+		var lateBuilt []entities.Set
 		for {
 			select {
 			case <-stopApp:
 				return
 			default:
 			}
-			if manyTemplates && late < 0 {
+			if manyTemplates && late < 0 && lateSets != nil {
+				// Everything is prepared: the application hands the three sets to the peer's reader and waits.  The reader
+				// calls SendSet for them the moment it sees the first retransmitted template (a few microseconds, no
+				// goroutine switch: the burst of nMany templates lasts several ms), the application logs the sends afterwards with
+				// the peer's log held back.  No new template later: each of the three must still be retransmitted at every
+				// later refresh.  (SendSet is still called by one goroutine at a time.)
+				lateReq <- lateBuilt
+				var out []lateRes
 				select {
-				case <-burst:
-					late = 3
-					burstAt = time.Now()
-				default:
+				case out = <-lateDone:
+				case <-stopApp:
+					return
+				}
+				late = 0
+				burstAt = time.Now()
+				for i, d := range lateSets {
+					evals++
+					w.Emit(vt.Ev{"e": "SendBegin", "set": d.JSON(), "ms": out[i].m0})
+					w.Emit(vt.Ev{"e": "SendEnd", "ret": out[i].n, "err": out[i].err != nil, "ms0": out[i].m0, "ms": out[i].m1})
+				}
+				holdLog.Store(false)
+			}
+			if manyTemplates && late < 0 && len(tids) >= nMany && lateSets == nil {
+				for q := 0; q < 3; q++ { // prepared while waiting for the burst
+					tid := 256 + len(tids)
+					tmpls[tid] = sets.RandTemplate(rr, pool, 2)
+					tids = append(tids, tid)
+					d := sets.Tmpl(tid, tmpls[tid])
+					lateSets = append(lateSets, d)
+					lateBuilt = append(lateBuilt, d.Build())
 				}
 			}
 			var d sets.Desc
@@ -158,7 +220,7 @@ func udpRun(w *vt.Writer, r *rand.Rand, pool []*entities.InfoElement, dur time.D
 				tmpls[tid] = sets.RandTemplate(rr, pool, 2)
 				tids = append(tids, tid)
 				d = sets.Tmpl(tid, tmpls[tid])
-			} else if manyTemplates && late < 0 && len(tids) < 400 {
+			} else if manyTemplates && late < 0 && len(tids) < nMany && lateSets == nil {
 				tid := 256 + len(tids)
 				tmpls[tid] = sets.RandTemplate(rr, pool, 2)
 				tids = append(tids, tid)
@@ -200,12 +262,6 @@ func udpRun(w *vt.Writer, r *rand.Rand, pool []*entities.InfoElement, dur time.D
 				continue // data sets back to back while the refresher works through its burst
 			}
 			if manyTemplates && late != 0 {
-				if len(tids) >= 400 && late < 0 { // wait for the burst, react at once
-					select {
-					case <-burst:
-					case <-time.After(time.Duration(rr.Intn(3000)) * time.Microsecond):
-					}
-				}
 				continue
 			}
 			time.Sleep(time.Duration(rr.Intn(3000)) * time.Microsecond)
@@ -603,7 +659,11 @@ func main() {
 	// UDP runs in parallel would share the logger; run them one after another
 	if *scen == "refresh" {
 		manyTemplates = true
-		evals += udpRun(w, r, pool, 1500*time.Millisecond, dist)
+		rd := 1500 * time.Millisecond
+		if v, err := strconv.Atoi(os.Getenv("VERIF_REFRESH_MS")); err == nil && v > 0 {
+			rd = time.Duration(v) * time.Millisecond // (used when looking into the timing of this scenario by hand)
+		}
+		evals += udpRun(w, r, pool, rd, dist)
 		w.Close()
 		vt.PrintSummary(vt.Summary{Events: w.Events(), Traces: w.Traces(), Evaluations: evals, Distinct: len(dist)})
 		return
